@@ -57,6 +57,29 @@ def seg(k, v, p):
 def angdiff(a, b): return abs(math.remainder(a - b, TWO_PI))
 
 
+def rs_csc_relaxed(rho, a, b, tol=1e-9):
+    """The shortest CSC Reeds-Shepp word from a to b (the library's own formulas, timeflip / reflect included) when a segment
+    whose length comes out as a rounding-size negative number (down to -tol) is accepted as zero; the library itself
+    demands >= -10 * machine epsilon.  Returns (length, degenerate): degenerate = the first or third segment of that word
+    is within tol of zero, i.e. the library's sign test on it is decided by rounding."""
+    def m2(x):
+        v = math.fmod(x, TWO_PI)
+        return v + TWO_PI if v < -math.pi else (v - TWO_PI if v > math.pi else v)
+    dx, dy = b[0] - a[0], b[1] - a[1]; cth, sth = math.cos(a[2]), math.sin(a[2])
+    x0, y0, phi0 = (cth * dx + sth * dy) / rho, (-sth * dx + cth * dy) / rho, b[2] - a[2]
+    best = None
+    for (x, y, phi) in ((x0, y0, phi0), (-x0, y0, -phi0), (x0, -y0, -phi0), (-x0, -y0, phi0)):
+        xx, yy = x - math.sin(phi), y - 1 + math.cos(phi)
+        u, t = math.sqrt(xx * xx + yy * yy), math.atan2(yy, xx)
+        v = m2(phi - t)
+        if t >= -tol and v >= -tol and (best is None or abs(t) + abs(u) + abs(v) < best[0]): best = (abs(t) + abs(u) + abs(v), min(t, v) < tol)
+        xx, yy = x + math.sin(phi), y - 1 - math.cos(phi); u1s = xx * xx + yy * yy
+        if u1s >= 4:
+            u = math.sqrt(u1s - 4); t = m2(math.atan2(yy, xx) + math.atan2(2, u)); v = m2(t - phi)
+            if t >= -tol and v >= -tol and (best is None or abs(t) + abs(u) + abs(v) < best[0]): best = (abs(t) + abs(u) + abs(v), min(t, v) < tol)
+    return (None, False) if best is None else (rho * best[0], best[1])
+
+
 def rat(x):
     n, d = Fraction(x).numerator, Fraction(x).denominator
     return "(%d / %d)" % (n, d) if n >= 0 else "(- (%d / %d))" % (-n, d)
@@ -130,7 +153,11 @@ def main():
         if abs(sab - sba) > 1e-12 * scale * rho: pred(l, "symmetric Dubins distance is not symmetric: %r vs %r" % (sab, sba))
         if abs(sab - min(dab, dba)) > 1e-12 * scale * rho: pred(l, "symmetric Dubins distance %r is not min of both directions %r" % (sab, min(dab, dba)))
         if abs(rab - rba) > 1e-9 * scale * rho: pred(l, "Reeds-Shepp distance is not symmetric: %r vs %r" % (rab, rba))
-        if not coincident and (rab > dab + 1e-7 * scale * rho or rab > dba + 1e-7 * scale * rho): pred(l, "Reeds-Shepp distance %r exceeds the Dubins distance (%r, %r)" % (rab, dab, dba))
+        if not coincident and (rab > dab + 1e-7 * scale * rho or rab > dba + 1e-7 * scale * rho):
+            # the known finding is exactly: a shorter C-S-C word exists whose first or third segment is zero up to rounding
+            rel, degen = rs_csc_relaxed(rho, a, b)
+            pred(l, "Reeds-Shepp distance %r exceeds the Dubins distance (%r, %r)" % (rab, dab, dba),
+                 "C14-rs-sign-test-rejects-shortest-word" if rel is not None and degen and rel <= min(dab, dba) * (1 + 1e-7) else None)
         # dense sampling of interpolate
         for row, (nm, total, reversal_ok) in zip((1, 2, 3), (("Dubins", dab, False), ("symmetric Dubins", sab, True), ("Reeds-Shepp", rab, True))):
             rowtxt, _, preftxt = out[4 * k + row].partition("| pref")
@@ -152,13 +179,27 @@ def main():
             if bad: pred(l, "%s interpolation does not follow the vehicle model: %s" % (nm, bad))
             # a prefix of the reported curve is a feasible curve of length t * total to its end point, so the distance to that point
             # cannot exceed it; the property demands equality (a prefix of a shortest curve is shortest)
-            for frac, dp in zip((N // 4 / N, N // 2 / N, (3 * N) // 4 / N), prefs):
+            for frac, dp, pidx in zip((N // 4 / N, N // 2 / N, (3 * N) // 4 / N), prefs, (N // 4, N // 2, (3 * N) // 4)):
                 if coincident: break
-                if dp > frac * total * (1 + 1e-7) + 1e-9 * rho: pred(l, "%s: distance to the point at t = %g is %r, more than the prefix of the reported curve (%r)" % (nm, frac, dp, frac * total)); break
+                if dp > frac * total * (1 + 1e-7) + 1e-9 * rho:
+                    rel, degen = rs_csc_relaxed(rho, a, pts[pidx]) if nm == "Reeds-Shepp" else (None, False)
+                    pred(l, "%s: distance to the point at t = %g is %r, more than the prefix of the reported curve (%r)" % (nm, frac, dp, frac * total),
+                         "C14-rs-sign-test-rejects-shortest-word" if rel is not None and degen and rel <= frac * total * (1 + 1e-7) + 1e-9 * rho else None); break
                 if dp < frac * total * (1 - 1e-6) - 1e-9 * rho:
                     pred(l, "%s: the prefix of the reported shortest curve is not shortest: distance to the point at t = %g is %r < t * total = %r" % (nm, frac, dp, frac * total), "C14-prefix-not-shortest-" + nm.split()[0].lower()); break
         # certificate input
         if k % (3 if quick else 6) == 0 and not coincident: certs.append((k, rho, a, b, word, (t, p, q), rst, rsl, dx, dy))
+    # ---- the Reeds-Shepp sign test against rounding (known finding), on one fixed pair: a point on the straight part of an L-S-L curve
+    kf = "DUB 0x1p+0 4 -0x1.5dae6e7feadacp+0 -0x1.a195d5948e8c6p+0 0x1.41fa71afc7a3ep+1 | -0x1.50db007f93598p+1 -0x1.b5339a06c9f0dp+0 -0x1.34ac3f2058a08p+1"
+    rk = vf.sh([drv], input=kf + "\n", timeout=60)
+    try:
+        wk = rk[1].split("\n")[0].split(); dk = min(fl(wk[9]), fl(wk[10])); rsk = fl(wk[28])
+        if rsk > dk * (1 + 1e-7):
+            what = "ReedsSheppStateSpace: distance %r exceeds the Dubins distance %r of the same pair: the shortest word (L 1.3562, S 0.0172) is rejected because its third segment comes out as -1.5e-14 < -10 * epsilon, and a four-arc word 1.8%% longer is reported (any point on the straight part of a C-S-C curve is such a pair)" % (rsk, dk)
+            if not c.known_finding("C14-rs-sign-test-rejects-shortest-word", what):
+                c.violation("implementation violates C14: " + what, "# C14 replay: feed to build/harness/dubins_driver\n" + kf + "\n")
+    except Exception:
+        c.broken.append("C14 probe of the Reeds-Shepp sign test produced no output")
     # ---- T-interval certificates: the R model run on the reported word ends at the target
     src = ["From Coq Require Import Reals List. From Interval Require Import Tactic. From OmplV Require Import DubinsModel. Import ListNotations. Local Open Scope R_scope.",
            "Ltac cert := cbn [run seg_apply px py pth]; interval with (i_prec 90)."]
